@@ -1499,7 +1499,12 @@ static void groread_case(vfh::Rng &r, const std::string &file) {
       std::string x[3], v[3];
       std::string pf = "%" + std::to_string(prec + 5) + "." + std::to_string(prec) + "f", vf = "%" + std::to_string(prec + 5) + "." + std::to_string(prec + 1) + "f";
       V3 p, vv;
-      for (int k = 0; k < 3; ++k) { x[k] = fmtd(pf.c_str(), r.uni(-90, 900)); v[k] = fmtd(vf.c_str(), r.normal() * 3); p[k] = tokd(x[k]); vv[k] = tokd(v[k]); }
+      for (int k = 0; k < 3; ++k) {
+        // a third of the values use the full field width (no leading blank)
+        x[k] = fmtd(pf.c_str(), r.coin(0.33) ? (r.coin() ? -r.uni(100, 999) : r.uni(1000, 9999)) : r.uni(-90, 900));
+        v[k] = fmtd(vf.c_str(), r.coin(0.33) ? (r.coin() ? -r.uni(10, 99) : r.uni(100, 999)) : r.normal() * 3);
+        p[k] = tokd(x[k]); vv[k] = tokd(v[k]);
+      }
       snprintf(b, sizeof b, "%5d%-5s%5s%5d", i / 3 + 1, "RES", ("A" + std::to_string(i % 7)).c_str(), i + 1);
       o << b << x[0] << x[1] << x[2];
       if (hv) o << v[0] << v[1] << v[2];
